@@ -346,6 +346,10 @@ pub fn convex_polygons_intersection_with_tolerances(
                 }
                 out(None, Some(PolylinePointLocation::OnVertex(b)))
             }
+
+            // `poly2` is the intersection. Do not run the symmetric test: if the polygons enclose
+            // each other (same region), it would output the same polygon a second time.
+            return;
         }
 
         let mut orient = TriangleOrientation::Degenerate;
